@@ -12,7 +12,7 @@ ARG_ORDER = {
     'ptr_eq': ['a', 'b'], 'w_ptr_eq': ['a', 'b'], 'deref': ['h'], 'try_unwrap': ['h', 'as'], 'drop_value': ['v'],
     'get_mut': ['h'], 'make_mut': ['h'], 'into_raw': ['h', 'as'], 'as_ptr': ['h', 'as'], 'from_raw': ['r', 'as'],
     'inc_strong': ['r'], 'dec_strong': ['r'], 'w_into_raw': ['w', 'as'], 'w_from_raw': ['r', 'as'],
-    'on_drop_panic': ['obj'], 'note': [], 'links': ['h'], 'new_from': ['obj', 'as'], 'new_from_box': ['obj', 'as'], 'eq': ['a', 'b'], 'ne': ['a', 'b'], 'lt': ['a', 'b'], 'le': ['a', 'b'], 'gt': ['a', 'b'], 'ge': ['a', 'b'], 'cmp': ['a', 'b'], 'partial_cmp': ['a', 'b'], 'drop_any': ['h'], 'cost_clone': ['h', 'as'], 'cost_drop': ['h'], 'drop_if': ['h'], 'drop_all_wextras': ['obj'],
+    'on_drop_panic': ['obj'], 'note': [], 'links': ['h'], 'clone_mode': ['mode'], 'new_from': ['obj', 'as'], 'new_from_box': ['obj', 'as'], 'eq': ['a', 'b'], 'ne': ['a', 'b'], 'lt': ['a', 'b'], 'le': ['a', 'b'], 'gt': ['a', 'b'], 'ge': ['a', 'b'], 'cmp': ['a', 'b'], 'partial_cmp': ['a', 'b'], 'drop_any': ['h'], 'cost_clone': ['h', 'as'], 'cost_drop': ['h'], 'drop_if': ['h'], 'drop_all_wextras': ['obj'],
 }
 
 
@@ -74,6 +74,8 @@ def parse_native(text):
             cur['trace'].append(['dtor', int(w[1])])
         elif w[0] == 'tclone':
             cur['trace'].append(['tclone', int(w[1])])
+        elif w[0] == 'tcmp':
+            cur['trace'].append(['tcmp', w[1], int(w[2]), int(w[3])])
         elif w[0] == 'ret':
             v = w[2] if len(w) > 2 else None
             if w[1] in ('eq', 'ne', 'lt', 'le', 'gt', 'ge', 'cmp', 'partial_cmp'):
